@@ -73,6 +73,8 @@ pub enum Act {
     /// answer everything outstanding with ONE call of `enqueue_responses`; the order of the batch
     /// is the permutation derived from the number (0 = oldest first, 1 = newest first)
     RespondBatch(u64, Size),
+    /// application misuse: a second response for the request answered last (a surplus response)
+    RespondAgain,
     Flush,
     SetLimit(usize),
     Kill,
@@ -145,6 +147,7 @@ impl Act {
             Act::RespondAll(s) => format!("respondall:{}", size_name(*s)),
             Act::RespondAllRev(s) => format!("respondallrev:{}", size_name(*s)),
             Act::RespondBatch(k, s) => format!("respondbatch:{}:{}", k, size_name(*s)),
+            Act::RespondAgain => "respondagain".into(),
             Act::Flush => "flush".into(),
             Act::SetLimit(l) => format!("setlimit:{}", l),
             Act::Kill => "kill".into(),
@@ -167,6 +170,7 @@ impl Act {
             "respondnewest" => Act::RespondNewest(parse_size(parts.get(1)?)?),
             "respondall" => Act::RespondAll(parse_size(parts.get(1)?)?),
             "respondallrev" => Act::RespondAllRev(parse_size(parts.get(1)?)?),
+            "respondagain" => Act::RespondAgain,
             "respondbatch" => Act::RespondBatch(parts.get(1)?.parse().ok()?, parse_size(parts.get(2)?)?),
             "flush" => Act::Flush,
             "setlimit" => Act::SetLimit(n(1)?),
@@ -397,6 +401,13 @@ pub fn apply(sim: &mut Sim, a: &Act) -> Applied {
             }
             sim.respond_batch(&order, s.bytes());
             Applied::Done
+        }
+        Act::RespondAgain => {
+            if sim.respond_again() {
+                Applied::Done
+            } else {
+                Applied::Skipped
+            }
         }
         Act::Flush => {
             sim.flush();
